@@ -258,6 +258,7 @@ class C07(PropBase):
     trusted_base = [
         "Coq 8.16.1 kernel (vm_compute only in Examples / witness lemmas)",
         "model C07/Model.v written by hand from walker.rs (eval_win_expr, FPO), parser.rs (record acceptance on parsed fields, insert_win_stack_info), mod.rs walk_frame; reuses C06/Model.v and C08/Model.v; tied to the code by the correspondence run AND (round 5) proved equal, function by function, to the Gallina compiled from walker.rs (c07_source_is_model)",
+        "translate/c07_win_line.py extracts stack_win_line's post-nom part (bytes, strings, comparison operators, field mapping, type arms) and the order / kind of the nom combinators from parser.rs into Gen/C07WinLine.v; the skeleton around them is pinned",
         "translate/c07_win_eval.py: a small Rust-subset parser + CPS code generator (lets, assignments, `?`, if / if let / match on string literals, method table with u32/u64/bool/Option/WinVal/&str typing) compiles win_frame_size, clear_stack_win_caller_registers, eval_win_expr (prologue, every arm of `match token`, output_regs) and walk_with_stack_win_fpo into Gen/C07WinEval.v; it pins the tokenizer closure, the output loop, walk_with_stack_win_framedata and SymbolFile::walk_frame's record preference textually and aborts on anything it does not understand. Trusted: the meaning it gives each Rust construct (wrapping_* = mod 2^w, checked_* = option, `-` = trapping subtraction, wrapping_div/rem = panic on 0, `as u32` = mod 2^32, HashMap insert/remove/get = association list with replace semantics)",
         "CfiStackWalker::from_ctx_and_args: the has_grand_callee / grand_callee_parameter_size field expressions are regenerated from minidump-unwind/src/lib.rs by translate/c07_walker_args.py (Gen/C07WalkerArgs.v; the rest of the constructor, walk_stack's grand-callee statement and the FrameWalker getters are pinned textually); the translator's small Option-chain language is trusted",
         "byte-level text route (C09/Grammar.v line parsers, hand-written from nom) proved equal to the record route for files without STACK CFI records (c07_text_route_agrees_parsed: from the lines of the file; the run-length normal form of program strings is proved as a parser invariant) and run side by side on every case; the harness's hex printing of the fields is test glue",
@@ -282,11 +283,17 @@ class C07(PropBase):
                 "hand-written model for all arguments (c07_source_is_model); refinement of the documented semantics, the exact output set, the FPO formulae and "
                 "panic-freedom of the whole walk_frame are stated for the compiled functions (c07_src_refines_spec, c07_src_mock_exact, c07_src_fpo_formulae, "
                 "c07_src_walk_frame_total), so an edited formula / guard / operator / constant / register list changes the Gallina the theorems are checked against. "
+                "Also round 5: the caller state after a STACK WIN walk through the real x86 CfiStackWalker characterised EXACTLY, validity set and values, with no hypothesis "
+                "about F-C07a (c07_real_framedata_exact, c07_real_fpo_exact: valid = defined by the record, or forwarded callee-saved register — the known class); which record "
+                "walk_frame uses and when STACK CFI is consulted (c07_record_preference); stack_win_line extracted from parser.rs (field order and kinds, type / has_program "
+                "consistency, rest == \"1\", field mapping) equals the record constructor and C09's byte-level recogniser (c07_line_source); the two usual MSVC frame-data programs "
+                "evaluated symbolically for all environments (c07_standard_programs); every well-formed x86 stack of any depth through any mix of FPO and frame-data (.raSearch "
+                "program) records is walked to exactly its chain (c07_win_recovers_chain). "
                 "Model tied to the code by exhaustive programs to length 4, extreme size fields, overlapping record sets, through a mock FrameWalker, "
                 "through x86 walk_stack from a context frame and from frame lists, debug and release; an independent Python reference judges "
                 "every implementation answer.",
         "note": "Trusted: Coq kernel; hand-written model (correspondence-checked and proved equal to the compiled source); the two translators (Option-chain language for from_ctx_and_args; Rust-subset compiler for walker.rs); extraction + glue. "
-                "c07_fpo_recovers_chain(_bp) are about whole walks through FPO records (both allocates_base_pointer kinds) on the abstract 32-bit walker (frame-data programs and "
+                "c07_fpo_recovers_chain(_bp) are about whole walks through FPO records (both allocates_base_pointer kinds) on the abstract 32-bit walker (round 5: c07_win_recovers_chain adds frame-data records with the .raSearch program; other programs and "
                 "mixes with STACK CFI in whole walks are covered by the run: C04's STACK WIN stacks). Known finding F-C07a (implicit forwarding of "
                 "ebp/ebx/esi/edi through STACK WIN frames) is pinned by minidump-stackwalk snapshots and reported as KNOWN-FINDING. No axioms.",
     }
@@ -415,6 +422,20 @@ class C07(PropBase):
                             addA(100, gcps, hasgc, "esp=%d,ebp=55,ebx=9,eip=%d" % (ESP, ce), ESP - 16, bytes(img).hex(),
                                  [W("0", 100, 16, 8, sv, lo, "0", abp)])
                             dist["fpo_skip_runs"] = dist.get("fpo_skip_runs", 0) + 1
+        # 64-bit callee registers on the mock walker: esp + frame_size (+4, + the ebp slot) must not wrap around u64 into the
+        # memory image based at 0 (the documented result is a clean failure); frame data sees esp / ebp truncated to 32 bits
+        img0 = words(0, 24).hex()
+        for esp in (U64 - 3, U64 - 7, U64 - 11, U64 - 15, (1 << 63), M32, M32 + 8):
+            for sv, lo, gcps in ((0, 0, 0), (4, 0, 0), (4, 4, 4), (8, 8, 0), (0, 12, 4)):
+                for abp in ("0", "1"):
+                    for hasgc in (False, True):
+                        regs = "esp=%d,ebp=%d,ebx=9,eip=%d" % (esp, 55, 0x40002000 + 0x10 * ((sv + lo + gcps) // 4))
+                        addA(100, gcps, hasgc, regs, 0, img0, [W("0", 100, 16, 8, sv, lo, "0", abp)])
+                        dist["wide_regs"] = dist.get("wide_regs", 0) + 1
+                regs = "esp=%d,ebp=%d,ebx=%d,eip=77" % (esp, U64 - 11, M32 + 5)
+                addA(100, gcps, True, regs, 0, img0, [W("4", 100, 16, 8, sv, lo, "1", "$eip .raSearch ^ = $esp .raSearch 4 + = $esi $ebx =")])
+                addA(100, gcps, True, regs, 0, img0, [W("4", 100, 16, 8, sv, lo, "1", "$eip $ebp 4 @ ^ = $esp .raSearchStart =")])
+                dist["wide_regs"] += 2
         # random longer programs
         stmts = ["$T0 $ebp =", "$eip $T0 4 + ^ =", "$ebp $T0 ^ =", "$esp $T0 8 + =", "$T0 .raSearchStart =", "$eip $T0 ^ =",
                  "$esp $T0 4 + =", "$ebx $T2 4 - ^ =", "$T2 $esp .cbSavedRegs + =", "$esi .undef =", "$edi 7 =", "$ebp .undef =",
